@@ -208,6 +208,26 @@ theorem dim_loss_eq {n kk m : ℕ} (dist : Mat ℝ n kk) (muDim muDens : ℝ) (L
   rw [Finset.sum_congr rfl (fun i hi => Finset.sum_congr rfl (hsum i hi))]
   ring
 
+
+/-- **The loss of the estimator**: `DimensionalityEstimator._compute_loss_func` hands `_normal` the size `2m` of the latent
+    array (repaired defect: it used to pass `shape[0] = 2`), so the prior is the `2m`-dimensional standard normal and
+    `loss z = −( log N(z;0,I_{2m}) + Σᵢⱼ log Poisson(j; λᵢⱼ) ) − n·log k!` — the documented model up to one constant free of
+    `z`. -/
+theorem dim_loss_eq_estimator {n kk m : ℕ} (dist : Mat ℝ n kk) (muDim muDens : ℝ) (L : Mat ℝ n m)
+    (z : Mat ℝ 2 m) (hdist : ∀ i, i < n → ∀ a ∈ rowList dist i, 0 < a) :
+    dimLossFunc dist muDim muDens L (2 * m) z
+      = -((stdNormalLogpdf m (fun j => z.el 0 j) + stdNormalLogpdf m (fun j => z.el 1 j))
+          + ∑ i ∈ range n, ∑ j ∈ range kk,
+              Real.log (poissonPmf
+                (Real.exp (∑ c ∈ range m, L.el i c * z.el 1 c + muDens)
+                  * ballVol (Real.exp (∑ c ∈ range m, L.el i c * z.el 0 c + muDim))
+                  * (sortAsc (rowList dist i)).getD j 0 ^ (Real.exp (∑ c ∈ range m, L.el i c * z.el 0 c + muDim)))
+                (j + 1)))
+        - n * Real.log (kk.factorial : ℝ) := by
+  rw [dim_loss_eq dist muDim muDens L (2 * m) z hdist]
+  push_cast
+  ring
+
 /-! ### defaults -/
 
 /-- **Length scale**: `compute_ls = e³ · (geometric mean of the nn distances)`, and the estimator
